@@ -705,6 +705,84 @@ func runC08(r *Run) {
 			for j := 0; j < 5; j++ {
 				c08NoInvention(r, i*5+j)
 			}
+			c08PooledNoInvention(r, i)
 		}
+	}
+}
+
+// c08PooledNoInvention: "every event it delivers corresponds to one real hit" with the entry pool on. Keys with a short
+// TTL are hit once or twice - fewer hits than fill a stripe, so the events wait in the read buffers -, expire and
+// are reclaimed (their entries return to the pool); new keys, never read, are stored in the recycled entries and pass
+// through the window into probation; then the stripes are drained by reads of one other key. A key that was never
+// read can only be in the protected region if a hit that was not its own was applied to it.
+func c08PooledNoInvention(r *Run, idx int) {
+	rng := r.Rng(int64(5900 + idx))
+	done := r.Case(fmt.Sprintf("pooled-no-invention %d pool=true", idx))
+	defer done()
+	c, err := theine.NewBuilder[int, int](1000).UseEntryPool(true).Build()
+	if err != nil {
+		r.Broken("build: %v", err)
+		return
+	}
+	defer c.Close()
+	st := c.VerifStore()
+	n := 80 + rng.Intn(60)
+	const pumpKey = 900000
+	c.Set(pumpKey, 1, 1)
+	for k := 0; k < n; k++ {
+		c.SetWithTTL(k, k, 1, time.Second)
+	}
+	c.Wait()
+	pending := 0
+	for k := 0; k < n; k++ { // on average two or three events per stripe: nothing is drained yet
+		c.Get(k)
+		pending++
+		if rng.Intn(2) == 0 {
+			c.Get(k)
+			pending++
+		}
+	}
+	st.VerifShiftClock(3*time.Second, true)
+	st.VerifTick()
+	c.Wait()
+	reclaimed := 0
+	for k := 0; k < n; k++ {
+		if !st.VerifResident(k) {
+			reclaimed++
+		}
+	}
+	for k := 0; k < n; k++ { // never read
+		c.Set(500000+k, k, 1)
+	}
+	c.Wait()
+	var wg sync.WaitGroup
+	for g := 0; g < runtime.GOMAXPROCS(0); g++ {
+		wg.Add(1)
+		go func() {
+			defer wg.Done()
+			for j := 0; j < 4096; j++ {
+				c.Get(pumpKey)
+			}
+		}()
+	}
+	wg.Wait()
+	c.Wait()
+	sn := st.VerifSnapshot()
+	promoted, first := 0, 0
+	for _, e := range sn.Protected.Entries {
+		if e.Key >= 500000 && e.Key < 500000+n {
+			promoted++
+			if promoted == 1 {
+				first = e.Key
+			}
+		}
+	}
+	r.Eval(1)
+	r.Count("pooled_no_invention_rounds", 1)
+	r.Count("pooled_entries_reclaimed_with_read_events_pending", int64(reclaimed))
+	r.Distinct(fmt.Sprintf("pooled-no-invention/n=%d", n/20))
+	if promoted > 0 {
+		r.Violate("read-events-invented/never-read-key-promoted/entry-pool", fmt.Sprintf("round %d (entry pool on): %d keys with a TTL were hit %d times in all and then expired (%d reclaimed), %d new keys were stored and never read, the read buffers were drained by reads of another key: %d of the never-read keys are in the protected region (first: %d), where only a hit takes an entry", idx, n, pending, reclaimed, n, promoted, first),
+			map[string]any{"round": idx, "never_read_keys_promoted": promoted})
 	}
 }
